@@ -4,6 +4,7 @@
    are about control flow only.  Sign, scaling and pulse recovery need arithmetic laws; those are
    Section hypotheses of the later Sections, each instantiated with exact rationals below. *)
 From AG Require Import Base.Prelude Base.Res Signal.Greedy.
+From Coq Require Import Floats.
 
 Local Open Scope nat_scope.
 
@@ -285,6 +286,235 @@ Theorem deconv_eq_plain_sec : forall signal response offs las,
   ls_deconv nn_greedy signal response offs las = ls_deconv nn_naive signal response offs las.
 Proof. intros. apply ls_deconv_ext. apply greedy_skip_eq_naive_sec. Qed.
 
+
+(* ========== (3) lengths, fuel, totality ========== *)
+Section Len.
+Variables response rwin : list F.
+Variables off la : nat.
+Notation gl := (greedy_loop response rwin off la).
+
+Lemma greedy_loop_lengths : forall fuel rest ai ar residual input,
+  gl fuel rest ai ar = Ok (residual, input) ->
+  length residual = length ar + length rest /\ length input = length ai + length rest.
+Proof.
+  induction fuel as [|f IH]; intros rest ai ar residual input; cbn [Greedy.greedy_loop]; [discriminate|].
+  destruct (slice rest off la) as [win|] eqn:Hs.
+  - destruct (last_nonneg win) as [lp|].
+    + destruct (advance (S lp) rest ai ar) as [[r' ai'] ar'] eqn:Ha.
+      intros H. apply IH in H. destruct (advance_lengths _ _ _ _ _ _ _ Ha) as [_ [H1 H2]]. lia.
+    + destruct (fire response rwin win rest) as [[val rest']| |] eqn:Ef; cbn [bind]; try discriminate.
+      apply fire_length in Ef. destruct rest' as [|x t]; [discriminate|].
+      intros H. apply IH in H. cbn [length] in *. lia.
+  - intros [= <- <-]. unfold Greedy.finish. rewrite !app_length, !rev_length, repeat_length. lia.
+Qed.
+
+Lemma fire_not_err win rest k : fire response rwin win rest <> Err k.
+Proof. unfold Greedy.fire. destruct (reduce_min (zip_div win rwin)); cbn; discriminate. Qed.
+
+(* the fuel S (length signal) given by nn_greedy always suffices: Err 1 (out of fuel) never comes out *)
+Lemma greedy_loop_fuel : forall fuel rest ai ar k, length rest < fuel -> gl fuel rest ai ar <> Err k.
+Proof.
+  induction fuel as [|f IH]; intros rest ai ar k Hf; [lia|]. cbn [Greedy.greedy_loop].
+  destruct (slice rest off la) as [win|] eqn:Hs; [|discriminate].
+  destruct (last_nonneg win) as [lp|] eqn:El.
+  - assert (Hla := slice_length _ _ _ _ Hs).
+    assert (Hnw := nn_at_lt _ _ (last_nonneg_some _ _ El)).
+    apply slice_some_iff in Hs. destruct Hs as [Hs _].
+    destruct (advance (S lp) rest ai ar) as [[r' ai'] ar'] eqn:Ha.
+    destruct (advance_lengths _ _ _ _ _ _ _ Ha) as [Hl _].
+    apply IH. lia.
+  - destruct (fire response rwin win rest) as [[val rest']| |] eqn:Ef; cbn [bind]; try discriminate.
+    + apply fire_length in Ef. destruct rest' as [|x t]; [discriminate|]. apply IH. cbn [length] in Ef. lia.
+    + exfalso. exact (fire_not_err _ _ _ Ef).
+Qed.
+
+Lemma zip_div_length w rw : length (zip_div w rw) = Nat.min (length w) (length rw).
+Proof.
+  revert rw; induction w as [|s t IH]; intros rw; [reflexivity|].
+  destruct rw as [|r rt]; [reflexivity|]. cbn [Greedy.zip_div length Nat.min]. rewrite IH. reflexivity.
+Qed.
+
+(* with a non-empty window (look_ahead >= 1) the sweep never panics *)
+Lemma greedy_loop_ok : forall fuel rest ai ar,
+  length rest < fuel -> 1 <= la -> length rwin = la ->
+  exists residual input, gl fuel rest ai ar = Ok (residual, input).
+Proof.
+  induction fuel as [|f IH]; intros rest ai ar Hf Hla Hrw; [lia|]. cbn [Greedy.greedy_loop].
+  destruct (slice rest off la) as [win|] eqn:Hs; [|unfold Greedy.finish; eauto].
+  assert (Hwl := slice_length _ _ _ _ Hs).
+  apply slice_some_iff in Hs. destruct Hs as [Hs _].
+  destruct (last_nonneg win) as [lp|] eqn:El.
+  - destruct (advance (S lp) rest ai ar) as [[r' ai'] ar'] eqn:Ha.
+    destruct (advance_lengths _ _ _ _ _ _ _ Ha) as [Hl _].
+    apply IH; [lia|assumption|assumption].
+  - unfold Greedy.fire.
+    destruct (zip_div win rwin) as [|q qs] eqn:Ez.
+    + exfalso. assert (H := zip_div_length win rwin). rewrite Ez in H. cbn [length] in H. lia.
+    + cbn [Greedy.reduce_min unwrap bind].
+      destruct (sub_scaled rest response (fold_left fmin qs q)) as [|x t] eqn:Er.
+      * exfalso. assert (H := sub_scaled_length rest response (fold_left fmin qs q)).
+        rewrite Er in H. cbn [length] in H. lia.
+      * apply IH; [|assumption|assumption].
+        assert (H := sub_scaled_length rest response (fold_left fmin qs q)).
+        rewrite Er in H. cbn [length] in H. lia.
+Qed.
+End Len.
+
+Theorem nn_greedy_length_sec signal response off la r inp :
+  nn_greedy signal response off la = Ok (r, inp) -> length inp = length signal.
+Proof.
+  unfold Greedy.nn_greedy, Greedy.nn_with.
+  destruct (unwrap (slice response off la)) as [rwin| |]; cbn [bind]; try discriminate.
+  unfold assert_. destruct (forallb neg rwin); [|discriminate].
+  destruct (greedy_loop response rwin off la (S (length signal)) signal [] []) as [[residual input]| |] eqn:E;
+    cbn [bind]; try discriminate.
+  intros [= _ <-]. apply greedy_loop_lengths in E. cbn [length] in E. lia.
+Qed.
+
+Theorem nn_greedy_not_err_sec signal response off la k : nn_greedy signal response off la <> Err k.
+Proof.
+  unfold Greedy.nn_greedy, Greedy.nn_with.
+  destruct (slice response off la) as [rwin|]; cbn [unwrap bind]; try discriminate.
+  unfold assert_. destruct (forallb neg rwin); [|discriminate].
+  destruct (greedy_loop response rwin off la (S (length signal)) signal [] []) as [[residual input]|k0|] eqn:E;
+    cbn [bind]; try discriminate.
+  exfalso. apply (greedy_loop_fuel response rwin off la (S (length signal)) signal [] [] k0); [lia|assumption].
+Qed.
+
+(* the assert and the slicing are the only panics when look_ahead >= 1 *)
+Theorem nn_greedy_total_sec signal response off la rwin :
+  slice response off la = Some rwin -> forallb neg rwin = true -> 1 <= la ->
+  exists r inp, nn_greedy signal response off la = Ok (r, inp) /\ length inp = length signal.
+Proof.
+  intros Hs Hneg Hla.
+  destruct (greedy_loop_ok response rwin off la (S (length signal)) signal [] []) as [residual [input E]];
+    [lia|assumption|eapply slice_length; eassumption|].
+  assert (H : nn_greedy signal response off la = Ok (sumsq residual, input)).
+  { unfold Greedy.nn_greedy, Greedy.nn_with. rewrite Hs. cbn [unwrap bind]. unfold assert_. rewrite Hneg.
+    rewrite E. reflexivity. }
+  exists (sumsq residual), input. split; [assumption|]. eapply nn_greedy_length_sec; eassumption.
+Qed.
+
+(* waveform shorter than offset + look_ahead: the loop body never runs; all-zero output of the same length *)
+Theorem nn_greedy_short_sec signal response off la rwin :
+  slice response off la = Some rwin -> forallb neg rwin = true -> length signal < off + la ->
+  nn_greedy signal response off la = Ok (sumsq signal, repeat zero (length signal)).
+Proof.
+  intros Hs Hneg Hn. unfold Greedy.nn_greedy, Greedy.nn_with. rewrite Hs. cbn [unwrap bind].
+  unfold assert_. rewrite Hneg. cbn [Greedy.greedy_loop].
+  apply slice_none_iff in Hn. rewrite Hn. reflexivity.
+Qed.
+
+(* ---- ls_deconvolution: which vector comes out ---- *)
+Section LsLen.
+Variable nn : list F -> list F -> nat -> nat -> res (F * list F).
+Variables signal response : list F.
+Hypothesis nn_len : forall off la r inp, nn signal response off la = Ok (r, inp) -> length inp = length signal.
+
+Definition grid (offs las : list nat) : list (nat * nat) := flat_map (fun o => map (pair o) las) offs.
+Fixpoint ls_flat (best : F * list F) (g : list (nat * nat)) : res (F * list F) :=
+  match g with
+  | [] => Ok best
+  | (off, la) :: t => do b <- ls_step nn signal response best off la; ls_flat b t
+  end.
+
+Lemma ls_flat_app best g1 g2 : ls_flat best (g1 ++ g2) = (do b <- ls_flat best g1; ls_flat b g2).
+Proof.
+  revert best; induction g1 as [|[o l] t IH]; intros best; [reflexivity|].
+  cbn [app ls_flat]. destruct (ls_step nn signal response best o l) as [b| |]; cbn [bind]; try reflexivity. apply IH.
+Qed.
+Lemma ls_inner_flat best off las : ls_inner nn signal response best off las = ls_flat best (map (pair off) las).
+Proof.
+  revert best; induction las as [|la t IH]; intros best; [reflexivity|].
+  cbn [Greedy.ls_inner map ls_flat].
+  destruct (ls_step nn signal response best off la) as [b| |]; cbn [bind]; try reflexivity. apply IH.
+Qed.
+Lemma ls_outer_flat best offs las : ls_outer nn signal response best offs las = ls_flat best (grid offs las).
+Proof.
+  revert best; induction offs as [|off t IH]; intros best; [reflexivity|].
+  cbn [Greedy.ls_outer grid flat_map]. rewrite ls_flat_app, ls_inner_flat.
+  destruct (ls_flat best (map (pair off) las)) as [b| |]; cbn [bind]; try reflexivity. apply IH.
+Qed.
+Lemma in_grid o l offs las : In (o, l) (grid offs las) <-> In o offs /\ In l las.
+Proof.
+  unfold grid. rewrite in_flat_map. split.
+  - intros [o' [H1 H2]]. apply in_map_iff in H2. destruct H2 as [l' [[= <- <-] H3]]. split; assumption.
+  - intros [H1 H2]. exists o. split; [assumption|]. apply in_map_iff. exists l. split; [reflexivity|assumption].
+Qed.
+
+Lemma ls_step_ok best off la b :
+  ls_step nn signal response best off la = Ok b ->
+  exists r inp, nn signal response off la = Ok (r, inp) /\ b = (if ltb r (fst best) then (r, inp) else best).
+Proof.
+  unfold Greedy.ls_step. destruct (nn signal response off la) as [[r inp]| |]; cbn [bind]; try discriminate.
+  intros [= <-]. eauto.
+Qed.
+
+Lemma ls_flat_len_mono : forall g best b,
+  ls_flat best g = Ok b -> length (snd best) = length signal -> length (snd b) = length signal.
+Proof.
+  induction g as [|[o l] t IH]; intros best b; cbn [ls_flat]; [intros [= <-]; auto|].
+  intros H Hb. apply bind_ok in H. destruct H as [b1 [H1 H2]].
+  apply ls_step_ok in H1. destruct H1 as [r [inp [Hn ->]]].
+  apply (IH _ _ H2). destruct (ltb r (fst best)); [cbn [snd]; eapply nn_len; eassumption | assumption].
+Qed.
+(* some run of the grid has a residual < +inf: the result is a vector of the input's length *)
+Lemma ls_flat_good : forall g best b,
+  ls_flat best g = Ok b ->
+  best = (inf, []) \/ length (snd best) = length signal ->
+  (exists off la r inp, In (off, la) g /\ nn signal response off la = Ok (r, inp) /\ ltb r inf = true) ->
+  length (snd b) = length signal.
+Proof.
+  induction g as [|[o l] t IH]; intros best b; cbn [ls_flat].
+  - intros _ _ [off [la [r [inp [[] _]]]]].
+  - intros H Hb [off [la [r [inp [Hin [Hn Hlt]]]]]].
+    apply bind_ok in H. destruct H as [b1 [H1 H2]].
+    apply ls_step_ok in H1. destruct H1 as [r1 [inp1 [Hn1 Hb1]]].
+    destruct Hin as [[= <- <-]|Hin].
+    + rewrite Hn in Hn1. injection Hn1 as <- <-.
+      apply (ls_flat_len_mono _ _ _ H2). rewrite Hb1.
+      destruct Hb as [->|Hb].
+      * cbn [fst]. rewrite Hlt. cbn [snd]. eapply nn_len; eassumption.
+      * destruct (ltb r (fst best)); [cbn [snd]; eapply nn_len; eassumption | assumption].
+    + apply (IH _ _ H2).
+      * rewrite Hb1. destruct (ltb r1 (fst best)); [right; cbn [snd]; eapply nn_len; eassumption | assumption].
+      * exists off, la, r, inp. auto.
+Qed.
+(* no run of the grid has a residual < +inf (all NaN or +inf): best_input stays the EMPTY vector *)
+Lemma ls_flat_bad : forall g b,
+  ls_flat (inf, []) g = Ok b ->
+  (forall off la r inp, In (off, la) g -> nn signal response off la = Ok (r, inp) -> ltb r inf = false) ->
+  b = (inf, []).
+Proof.
+  induction g as [|[o l] t IH]; intros b; cbn [ls_flat]; [intros [= <-]; reflexivity|].
+  intros H Hall. apply bind_ok in H. destruct H as [b1 [H1 H2]].
+  apply ls_step_ok in H1. destruct H1 as [r1 [inp1 [Hn1 Hb1]]].
+  cbn [fst] in Hb1. rewrite (Hall o l r1 inp1 (or_introl eq_refl) Hn1) in Hb1. subst b1.
+  apply IH; [assumption|]. intros off la r inp Hin. apply Hall. right. assumption.
+Qed.
+
+Theorem ls_deconv_length_sec offs las out :
+  ls_deconv nn signal response offs las = Ok out ->
+  (exists off la r inp, In off offs /\ In la las /\ nn signal response off la = Ok (r, inp) /\ ltb r inf = true) ->
+  length out = length signal.
+Proof.
+  unfold Greedy.ls_deconv. rewrite ls_outer_flat. intros H [off [la [r [inp [H1 [H2 [H3 H4]]]]]]].
+  apply bind_ok in H. destruct H as [b [Hb [= <-]]].
+  apply (ls_flat_good _ _ _ Hb); [left; reflexivity|].
+  exists off, la, r, inp. split; [apply in_grid; split; assumption|]. split; assumption.
+Qed.
+Theorem ls_deconv_empty_sec offs las out :
+  ls_deconv nn signal response offs las = Ok out ->
+  (forall off la r inp, In off offs -> In la las -> nn signal response off la = Ok (r, inp) -> ltb r inf = false) ->
+  out = [].
+Proof.
+  unfold Greedy.ls_deconv. rewrite ls_outer_flat. intros H Hall.
+  apply bind_ok in H. destruct H as [b [Hb [= <-]]].
+  rewrite (ls_flat_bad _ _ Hb); [reflexivity|].
+  intros off la r inp Hin. apply in_grid in Hin. destruct Hin. apply Hall; assumption.
+Qed.
+End LsLen.
+
 End GreedyProofs.
 
 (* Statements with exactly the parameters they mention (inside the Section `lia` makes every lemma
@@ -304,3 +534,56 @@ Lemma deconv_eq_plain_lemma :
   ls_deconv F inf ltb (nn_greedy F zero szero add sub mul div fmin neg nonneg) signal response offs las =
   ls_deconv F inf ltb (nn_naive F zero szero add sub mul div fmin neg nonneg) signal response offs las.
 Proof. intros. apply deconv_eq_plain_sec. Qed.
+
+Lemma deconv_lengths_lemma :
+  forall (F : Type) (zero szero : F) (add sub mul div fmin : F -> F -> F) (neg nonneg : F -> bool)
+         (signal response : list F) (off la : nat),
+  (* never out of fuel *)
+  (forall k, nn_greedy F zero szero add sub mul div fmin neg nonneg signal response off la <> Err k) /\
+  (* a result has one output sample per input sample *)
+  (forall r inp, nn_greedy F zero szero add sub mul div fmin neg nonneg signal response off la = Ok (r, inp) ->
+                 length inp = length signal) /\
+  (* and there is a result whenever the response window exists, is negative and non-empty *)
+  (forall rwin, slice F response off la = Some rwin -> forallb neg rwin = true -> 1 <= la ->
+     exists r inp, nn_greedy F zero szero add sub mul div fmin neg nonneg signal response off la = Ok (r, inp)) /\
+  (* a waveform shorter than offset + look_ahead gives the all-zero vector of its own length *)
+  (forall rwin, slice F response off la = Some rwin -> forallb neg rwin = true -> length signal < off + la ->
+     nn_greedy F zero szero add sub mul div fmin neg nonneg signal response off la =
+     Ok (sumsq F szero add mul signal, repeat zero (length signal))).
+Proof.
+  intros. pose (d := fun (_ _ : F) => true).
+  split; [|split; [|split]].
+  - intros k. exact (nn_greedy_not_err_sec F zero szero zero add sub mul div fmin neg nonneg d signal response off la k).
+  - intros r inp. exact (nn_greedy_length_sec F zero szero zero add sub mul div fmin neg nonneg d signal response off la r inp).
+  - intros rwin H1 H2 H3.
+    destruct (nn_greedy_total_sec F zero szero zero add sub mul div fmin neg nonneg d signal response off la rwin H1 H2 H3)
+      as [r [inp [H _]]].
+    exists r, inp. exact H.
+  - intros rwin. exact (nn_greedy_short_sec F zero szero zero add sub mul div fmin neg nonneg d signal response off la rwin).
+Qed.
+
+Lemma ls_deconv_lengths_lemma :
+  forall (F : Type) (zero szero inf : F) (add sub mul div fmin : F -> F -> F) (neg nonneg : F -> bool)
+         (ltb : F -> F -> bool) (signal response : list F) (offs las : list nat) (out : list F),
+  ls_deconv F inf ltb (nn_greedy F zero szero add sub mul div fmin neg nonneg) signal response offs las = Ok out ->
+  (* some run of the grid ends with residual < +inf: one output sample per input sample *)
+  ((exists off la r inp, In off offs /\ In la las /\
+      nn_greedy F zero szero add sub mul div fmin neg nonneg signal response off la = Ok (r, inp) /\ ltb r inf = true) ->
+   length out = length signal) /\
+  (* no run does (every residual NaN or +inf, or the grid is empty): the result is the EMPTY vector *)
+  ((forall off la r inp, In off offs -> In la las ->
+      nn_greedy F zero szero add sub mul div fmin neg nonneg signal response off la = Ok (r, inp) -> ltb r inf = false) ->
+   out = []).
+Proof.
+  intros F zero szero inf add sub mul div fmin neg nonneg ltb signal response offs las out H. split.
+  - apply (ls_deconv_length_sec F inf ltb _ signal response); [|exact H].
+    intros off la r inp. apply nn_greedy_length_sec; [exact zero | exact ltb].
+  - apply (ls_deconv_empty_sec F inf ltb _ signal response); exact H.
+Qed.
+
+(* binary64 witnesses (evaluation of the executable model on closed terms) *)
+Lemma length_all_inputs_refuted_lemma :
+  exists signal : list float, length signal = 1 /\ pad_deconv_f signal (repeat (-1)%float 18) = Ok [].
+Proof. exists [(-0x1p+700)%float]. split; [reflexivity|]. vm_compute. reflexivity. Qed.
+Lemma length_nan_lemma : pad_deconv_f [nan; (-5)%float] (repeat (-1)%float 18) = Ok [].
+Proof. vm_compute. reflexivity. Qed.
